@@ -100,6 +100,12 @@ type scope struct {
 	body   []stmt
 	final  expr // value of the last statement (never a block literal)
 
+	// generator hints
+	pk       []byte // probable kind of each parameter
+	pa       []int  // arity of block parameters
+	retBlock bool
+	retArity int
+
 	// analysis
 	parent   *scope
 	root     *scope
@@ -702,6 +708,10 @@ func (m *machine) call(a *activation, e *eCall) (value, *ctl) {
 		return m.invoke(f.s, f, args)
 	case *vFunc:
 		return m.invoke(f.s, nil, args)
+	case *vStr:
+		// calling a string is a method call on the first argument: not part
+		// of the block model
+		panic(discard{"call-string"})
 	}
 	return nil, throwStr("can't call", "cantcall")
 }
